@@ -167,6 +167,9 @@ def run(ctx):
 
     # ---- E: PostSweepExact at scale: a population as large as a registration burst (tens of thousands over hundreds of phantoms, in every
     # age / use class), ONE sweep - exactly the unexpired ones are left (TU = 10 min, TA = 6 h: Registry.tla's Expired)
+    ri = ctx.tlc(sdir, "Registry.tla", "MC_Registry_emptyindex.cfg", timeout=300, count=False)
+    if ri["inv"] != "IndexExact":
+        raise vlib.InfraError("the instance that leaves an empty per-phantom entry behind should violate IndexExact, TLC says %s" % ri["inv"])
     rc = ctx.tlc(sdir, "Registry.tla", "MC_Registry_sweepcap.cfg", timeout=300, count=False)
     if rc["inv"] != "PostSweepExact":
         raise vlib.InfraError("the instance whose sweep stops after a fixed number of removals should violate PostSweepExact, got %s" % rc["inv"])
